@@ -464,21 +464,21 @@ def cCore (ls : Nat) (cap : Option Nat) (s : CState) (x : Nat × Acc) : CState :
     if newT then
       if a.wb then { s with writes := addAt s.writes i ls } else s
     else
-      let popped : Option CState :=
-        match s.nextEvict with
-        | e :: rest => if e.obj = a.point then
-                         some { s with nextEvict := rest, wrongPop := s.wrongPop || decide (e.pos ≠ i) }
-                       else none
-        | [] => none
-      let s' : Option CState := match popped with
-        | some s' => some s'
-        | none => if s.pinned.contains k then some s else none
-      match s' with
-      | none => { s with failed := some "AssertionError" }
-      | some s =>
+      -- `if next_evict and next_evict[0].obj == obj: next_evict.pop(0)` (only `.obj` is compared)
+      let canPop : Bool := match s.nextEvict with
+        | e :: _ => decide (e.obj = a.point)
+        | [] => false
+      let otherPos : Bool := match s.nextEvict with
+        | e :: _ => decide (e.pos ≠ i)
+        | [] => false
+      if !canPop && !s.pinned.contains k then
+        { s with failed := some "AssertionError" }        -- `assert obj in pinned[tensor][type_]`
+      else
         -- main loop: `objs[..][obj][0] |= write_back`, then `evict_elem`
         let dirty := (alookup s.objs k).getD false || a.wb
-        { s with writes := if dirty then addAt s.writes i ls else s.writes
+        { s with nextEvict := if canPop then s.nextEvict.tail else s.nextEvict
+                 wrongPop := s.wrongPop || (canPop && otherPos)
+                 writes := if dirty then addAt s.writes i ls else s.writes
                  objs := aerase s.objs k
                  pinned := s.pinned.filter (· ≠ k)
                  occ := s.occ - ls }
